@@ -350,8 +350,10 @@ static char *led_line(char *pref, char *post, char *ai, int ai_max, int *left,
 			if (help != NULL && c1 != TK_CTL('a')) {
 				char *ln = uc_cat(pref, sbuf_buf(sb));
 				char *ac = help(ln);
-				if (ac != NULL)
+				if (ac != NULL) {
 					snprintf(cmp, sizeof(cmp), "%s", ac);
+					uc_trim(cmp);
+				}
 				free(ln);
 			} else {
 				sbuf_str(sb, cmp);
